@@ -13,10 +13,18 @@ jobs
       -> {"links": [[p, c] ...], "links_by_parents": [...], "roots": [...], "children": [[...] ...],
           "parents": [[...] ...], "n": n}          (positions refer to the list as given in the job)
        | {"raised": <kind>, "text": ...}
-  {"op": "query", "id": ..., "mol": {"kind": "smiles"|"pattern"|"graph", ...}, "cfgs": null | [...],
-   "require_h": bool, "obj": <key of the long-lived FGQuery object to use>}
-      -> {"same1": ans, "same2": ans, "fresh": ans, "before": snap, "after1": snap, "after2": snap,
-          "fresh_before": snap, "fresh_after": snap}     (ans = [[name, [ids]] ...] | {"raised": ...})
+  {"op": "query", "mol": {"kind": "smiles"|"pattern"|"graph", ...},
+   "obj": <key of the long-lived FGQuery object to use; built at its first use in this process>,
+   "mapper": null (= FGQuery's own default) | [wildcard | null, ignore_case],
+   "cfgs": null (= the default collection) | [<cfg dict> ...], "require_h": bool,
+   "fresh": bool (default true: additionally ask a freshly built FGQuery with the same construction parameters)}
+      -> {"same1": ans, "same2": ans, "fresh": ans | null, "before": snap, "after1": snap, "after2": snap,
+          "fresh_before": snap | null, "fresh_after": snap | null, "objects_built_before": [obj keys in creation order]}
+         (ans = [[name, [ids]] ...] | {"raised": ...})
+       | {"raised_in_setup": <kind>, "text": ..., "stage": "FGQuery(...)" | "molecule graph"}   -- NEVER dropped by the harness
+One process serves queries on SEVERAL long-lived objects built with different mappers / configurations /
+require_implicit_hydrogen, in the order in which the jobs arrive (harness/c06.py interleaves them in
+seed-dependent orders and compares with processes that only ever built one kind of object).
 """
 import json
 import os
@@ -141,9 +149,15 @@ def mk_graph(mol):
 def mk_query(job):
     from fgutils.query import FGQuery
     cfgs = job.get("cfgs")
-    kw = {"require_implicit_hydrogen": job.get("require_h", True)}
+    kw = {}
+    if not job.get("require_h", True):
+        kw["require_implicit_hydrogen"] = False
     if cfgs is not None:
         kw["config"] = mk_cfgs(cfgs)
+    m = job.get("mapper")
+    if m is not None:
+        from fgutils.permutation import PermutationMapper
+        kw["mapper"] = PermutationMapper(wildcard=m[0], ignore_case=bool(m[1]))
     return FGQuery(**kw)
 
 
@@ -156,24 +170,34 @@ def ans(q, g):
 
 def job_query(job):
     key = job.get("obj", "default")
+    built_before = list(_objs)
+    stage = "FGQuery(...)"
     try:
         if key not in _objs:
             _objs[key] = mk_query(job)
         q = _objs[key]
+        stage = "molecule graph"
         g = mk_graph(job["mol"])
     except Exception as e:
-        return {"raised_in_setup": classify_exc(e), "text": str(e)[:200]}
+        return {"raised_in_setup": classify_exc(e), "text": "%s: %s" % (type(e).__name__, str(e)[:200]), "stage": stage}
     before = snapshot(g)
     a1 = ans(q, g)
     after1 = snapshot(g)
     a2 = ans(q, g)
     after2 = snapshot(g)
-    g2 = mk_graph(job["mol"])
-    fb = snapshot(g2)
-    a3 = ans(mk_query(job), g2)
-    fa = snapshot(g2)
-    return {"same1": a1, "same2": a2, "fresh": a3, "before": before, "after1": after1, "after2": after2,
-            "fresh_before": fb, "fresh_after": fa}
+    out = {"same1": a1, "same2": a2, "fresh": None, "before": before, "after1": after1, "after2": after2,
+           "fresh_before": None, "fresh_after": None, "objects_built_before": built_before}
+    if job.get("fresh", True):
+        try:
+            g2 = mk_graph(job["mol"])
+            out["fresh_before"] = snapshot(g2)
+            fq = mk_query(job)
+        except Exception as e:
+            return {"raised_in_setup": classify_exc(e), "text": "%s: %s" % (type(e).__name__, str(e)[:200]),
+                    "stage": "fresh FGQuery(...)"}
+        out["fresh"] = ans(fq, g2)
+        out["fresh_after"] = snapshot(g2)
+    return out
 
 
 def main():
